@@ -5,14 +5,14 @@
  "level": "B(3)",
  "tier": "wip",
  "harness": "h_array_update_map",
- "replace": ["find_ea_index", "xattr_update_entry", "ext2fs_xattrs_expand"],
+ "replace": ["find_ea_index", "xattr_update_entry"],
  "unwind": 8,
  "unwind_reason": "bounded unit: at most 3 attributes in an array of capacity 4 (no expansion), short names <= 2 bytes; xattr_find_position's loop (<= 3 iterations), the element loops of the memmove stub (4) and the harness loops (<= 5) are unwound, unwinding assertions on",
  "functions": ["lib/ext2fs/ext_attr.c:xattr_array_update", "lib/ext2fs/ext_attr.c:xattr_find_position"],
  "assumes": ["BOUNDED: count <= 3 attributes before the call (the 4-attribute case with expansion is unit array_update_map_full), short names <= 2 bytes with an optional 1-byte prefix, name index 0..3; value lengths and EA-inode numbers arbitrary (<= 2^24 / 32 bit), region capacities arbitrary <= 65536",
              "handle well formed: 0 <= ibody_count <= count <= 3 < capacity = 4, names are distinct heap strings, the block part (entries ibody_count..count-1) is sorted in the kernel's order, unused slots are zero",
              "call-site guarantees of ext2fs_xattr_set: old_idx is the index of the entry with the same full name (hence same name index and short name) or -1 if there is none; ibody_free / block_free = region capacity minus the terminator minus the space the region's entries use (computed here by the specification sum XSPEC_NEED, which space_used is proved to equal)",
-             "callees by contract: find_ea_index (short name = name + prefix length, index as for the same-named entry), xattr_update_entry (contract proved in update_entry; the release of the old value buffer is not modelled here), ext2fs_xattrs_expand (never called here)",
+             "callees by contract: find_ea_index (short name = name + prefix length, index as for the same-named entry), xattr_update_entry (contract proved in update_entry; the release of the old value buffer is not modelled here), ext2fs_xattrs_expand is the real function (never reached here: count < capacity)",
              "libc strlen / memcmp are stubs that identify their arguments among the harness's name buffers by pointer comparison (CHECKED) and compute the ISO C result from the known contents (the short-name pointer coming out of the find_ea_index contract is a constrained nondeterministic pointer CBMC cannot dereference); libc memmove is a stub with ISO semantics specialised to whole array elements (applicability CHECKED at every call)"],
  "native": false
 }
